@@ -201,3 +201,9 @@ def run(repo: Repo, rep: Report, tier: str) -> None:
     # ---------------- R6 ---------------------------------------------------------------
     from .shared import borrow as _borrow4
     _borrow4(repo, rep, "C03", "C03-R7", "C04-R6", "the loop's last combinator emits the signal the cell is read on: the written value is coerced onto the cell's signal on every path")
+
+    # ---------------- R7 ---------------------------------------------------------------
+    rep.rule("C04-R7", "in a loop of two combinators the forward edge is the reverse of the feedback edge: the colour table the operand filters are read from keeps, for each pair, "
+             "the colour of the edge that really runs there — the fan-out router may add an entry under a reversed or spanning-tree key, but never replace one")
+    from .shared import mst_colour_keys as _mck4
+    _mck4(repo, rep, "C04-R7")
